@@ -19,10 +19,10 @@ SPEC = {
         "conf-state record (snapshot with index 0) is only saved while no real snapshot exists",
     ],
     "campaigns": [
-        {"name": "store_small", "run": "^TestStoreSmall$", "quick": B(300, 2), "thorough": B(20000, 2, 3000)},
-        {"name": "store_v2", "run": "^TestStoreV2$", "quick": B(20, 6), "thorough": B(900, 6, 3000)},
-        {"name": "store_v1", "run": "^TestStoreV1$", "quick": B(20, 3), "thorough": B(900, 3, 3000)},
-        {"name": "crash_image", "run": "^TestCrashImage$", "quick": B(20, 4), "thorough": B(900, 4, 3000)},
+        {"name": "store_small", "run": "^TestStoreSmall$", "quick": B(300, 2), "thorough": B(15000, 2, 3400)},
+        {"name": "store_v2", "run": "^TestStoreV2$", "quick": B(20, 6), "thorough": B(600, 6, 3400)},
+        {"name": "store_v1", "run": "^TestStoreV1$", "quick": B(20, 3), "thorough": B(600, 3, 3400)},
+        {"name": "crash_image", "run": "^TestCrashImage$", "quick": B(20, 4), "thorough": B(500, 4, 3400)},
     ],
 }
 
